@@ -94,6 +94,15 @@ type Footer struct {
 // higher snapshot may be nil.
 func (s *Store) persist(higher Snapshot, persistOptions StorePersistOptions) (
 	Snapshot, error) {
+	s.m.Lock()
+	closed := s.footer == nil
+	s.m.Unlock()
+	if closed {
+		// The store was closed, e.g. before the collection whose
+		// persister is calling; there is nothing to persist into.
+		return nil, ErrClosed
+	}
+
 	wasCompacted, err := s.compactMaybe(higher, persistOptions)
 	if err != nil {
 		return nil, err
